@@ -2,7 +2,7 @@
 using namespace smooth;
 MC_SUBCHECK(so)
 {
-  c15::run<SO2d>("SO2d", 4, 6);
-  c15::run<SO3d>("SO3d", 4, 6);
-  c15::run<C1d>("C1d", 3, 5);
+  c15::run<SO2d>("SO2d", 5, 6);
+  c15::run<SO3d>("SO3d", 5, 6);
+  c15::run<C1d>("C1d", 5, 6);
 }
